@@ -69,7 +69,14 @@ def dequeues(p):
     marks = [m for m in marks if any(e.kind == "local" and e.op in ("list.append", "list.extend", "list.__iadd__") and e.idx > m.idx
                                      and e.kw.get("__var__") is not None and e.kw["__var__"].t[1] == m.kw["__var__"].t[1]
                                      for e in p.events)]
-    return sorted(pops + marks, key=lambda e: e.idx)
+    # level by level: iteration over a list A that is replaced, after the loop, by a list B which was started empty and
+    # filled during the loop -- all entries of one level are taken, in order, before any entry of the next
+    rebinds = {(e.kw["__var__"].t[1], e.kw["__from__"].t[1]) for e in p.events if e.kind == "mark" and e.op == "rebind-list"}
+    fresh = {e.kw["__var__"].t[1] for e in p.events if e.kind == "mark" and e.op == "fresh-list"}
+    lvl_marks = [e for e in p.events if e.kind == "mark" and e.op == "for-over-list" and e.kw.get("__var__") is not None
+                 and e not in marks and e.kw["__var__"].t[1] not in popped and e.kw["__var__"].t[1] not in grown
+                 and any(a_ == e.kw["__var__"].t[1] and b_ in fresh for a_, b_ in rebinds)]
+    return sorted(pops + marks + lvl_marks, key=lambda e: e.idx)
 
 
 def run(M, rep, tier, only=None):
@@ -107,6 +114,7 @@ def run(M, rep, tier, only=None):
         sigs[kind] = {norm_sig(p, kind) for p in paths}
         bad = None
         npop = 0
+        lv1_alt = False
         for p in paths:
             if not p.normal:
                 bad = (p, "the finder can fail with %s" % p.terminal[1].cls)
@@ -140,10 +148,16 @@ def run(M, rep, tier, only=None):
             if is_const_term(lvl):
                 c = lvl[1]
                 rootlevel = 0
-                want = {1: rel in ("<", "="), 0: rel == "<"}.get(c - rootlevel + 0)
-                if c not in (0, 1):
-                    bad = (p, "the start node is not at level 0 (its children are compared with the limit as level %s)" % c)
-                    break
+                rootent = [v for a, v in p.decisions if a[0] == "isinst" and a[1][0] == "param"]
+                if pop.kind == "mark" and rootent and rootent[0] is False and c == 2:
+                    # level-by-level formulation below a file / block: its children are level 1, theirs are compared as 2
+                    want = rel in ("<", "=")
+                    lv1_alt = True
+                else:
+                    want = {1: rel in ("<", "="), 0: rel == "<"}.get(c - rootlevel + 0)
+                    if c not in (0, 1):
+                        bad = (p, "the start node is not at level 0 (its children are compared with the limit as level %s)" % c)
+                        break
             else:
                 s = show(lvl)
                 plus1 = lvl[0] == "bin" and lvl[1] == "+" and ("const", 1) in (lvl[2], lvl[3])
@@ -209,7 +223,7 @@ def run(M, rep, tier, only=None):
             for (r, a), v in p.heap.items():
                 if a == "level" and r[0] == "inst" and is_const(v) and v.t[1] == 1:
                     lv1 = True
-        if bad is None and not lv1:
+        if bad is None and not lv1 and not lv1_alt:
             bad = (paths[0], "the children of a file/block are not entered at level 1")
         rep.check(R2, key, bad is None and npop > 0, bad[1] if bad else "no dequeue found", site=f.file + ":%d" % f.node.lineno,
                   detail=describe_path(bad[0]) if bad else None, what="%d paths, %d dequeues, all at the head" % (len(paths), npop))
